@@ -3,6 +3,7 @@ import random
 import numpy as np
 import scipy.sparse as sp
 from .. import gen, pf, impl
+from ..comp import c07gen
 
 ID = 'C07'
 THEOREMS = [
@@ -12,12 +13,23 @@ THEOREMS = [
     ('EAO.Properties.C07', 'EAO.C07.assemble_mapping_faithful', 'every mapping row is the shifted row of exactly the asset it names and points into that asset\'s block'),
     ('EAO.Properties.C07', 'EAO.C07.rowless_not_in_nodal', 'a variable without mapping row occurs in no nodal row'),
     ('EAO.Properties.C07', 'EAO.C07.nodal_rows_exact', 'exactly one nodal row per (node not skipped, step) that has dispatch, none otherwise; the nodal record lists them in order'),
+    ('EAO.Properties.C19', 'EAO.C19.coarse_partition', 'the model\'s coarse grid (expectation of the coarse-interval oracle): one coarse step per pair of cuts, its minor list = the fine steps in [cut k, cut k+1), consecutive, disjoint, dt = sum of the fine dt'),
 ]
-COMPONENTS = ['hypotheses of the assembly theorems (well-formedness of asset problems) evaluated on every captured real asset problem', 'assemble (all aspects, positional) on captured real asset problems']
+COMPONENTS = ['hypotheses of the assembly theorems (well-formedness of asset problems) evaluated on every captured real asset problem', 'assemble (all aspects, positional) on captured real asset problems',
+              'coarsen (fine steps per coarse step, coarse step lengths) vs the restricted grid the real code builds for every asset on a coarser frequency']
 RULE = ('random portfolios incl. order books with out-of-horizon orders (row-less variables), transports/multi-commodity (several rows per variable), '
-        'MIP assets and scaled assets (appended variables), adversarial asset/node names; non-trivial = problem with >= 2 assets and >= 1 nodal row; distinct by scenario hash')
+        'MIP assets and scaled assets (appended variables), adversarial asset/node names; '
+        'stream gap: nodes whose dispatch has gaps in time (dead zones inside the horizon for a random set of nodes: all assets, wrapped assets and orders touching them live in the remaining segments; few full-horizon markets) - nodal rows checked in both directions; '
+        'stream coarse: assets on their own coarser frequency whose coarse steps hold unequal numbers of fine steps (calendar days of 23/24/25 h and weeks on zone-aware sub-daily grids across a daylight-saving switch, '
+        'life times beginning part of a coarse step before the horizon or inside it, remainders) and equal-length controls; '
+        'non-trivial = problem with >= 2 assets and >= 1 nodal row; distinct by scenario hash')
 ASSUMPTIONS = []
-EXPLANATION = 'theorems about the model assemble; exact positional correspondence with the real portfolio problem; structural oracle on the real OptimProblem objects (portfolio and every captured asset problem)'
+PARTIAL = ['the coarse-interval oracle identifies the coarse step of a variable by the first step its rows name (every variable must be mapped to exactly the fine steps of ONE coarse step of the asset, in proportion to their lengths, '
+           'and no two variables of the same kind and node to the same one); that the cost and bounds of the variable are those of THAT coarse step is a statement about the builders (C13 / builder correspondences), not checked here',
+           'assets that are both coarse and periodic, and coarse assets wrapped in a structured asset, are outside the coarse-interval oracle (their variables are merged / relabelled afterwards)']
+EXPLANATION = ('theorems about the model assemble; exact positional correspondence with the real portfolio problem; structural oracle on the real OptimProblem objects (portfolio and every captured asset problem): '
+               'sizes, index range, blocks, row-less variables, nodal rows <-> (node, step) pairs with dispatch in both directions; for assets on a coarser frequency the steps named by the rows of each variable '
+               'are compared with the coarse steps of the Lean model of Timegrid\'s coarse branch (theorem C19.coarse_partition; model tied to the real restricted grid on every such asset)')
 
 
 def scenarios(seed, tier):
@@ -45,6 +57,93 @@ def scenarios(seed, tier):
             s['assets'].append({'type': 'ScaledAsset', 'name': 'sob', 'base': base,
                                 'args': {'min_scale': 0.0, 'max_scale': 2.0, 'norm_scale': r1.choice([1.0, 2.0]), 'fix_costs': gen.q8(r1, 0.125, 1)}})
         yield 'gen%d' % i, s
+    # nodes whose dispatch has gaps in time (life times inside the horizon, hardly any full-horizon market, sparse order books):
+    # a nodal row exists exactly for the (node, step) pairs with dispatch, in both directions
+    for i in range(240 if tier == 'quick' else 1400):
+        s = c07gen.gen_gappy_portfolio(random.Random(rnd.getrandbits(48)), tmax=12 if tier == 'quick' else 20)
+        s['split'] = (i % 6 == 5)
+        yield 'gap%d' % i, s
+    # assets on their own coarser frequency whose coarse steps hold UNEQUAL numbers of fine steps (calendar days / weeks on
+    # zone-aware grids across a daylight-saving switch, windows beginning inside a coarse step) and equal-length controls
+    for i in range(160 if tier == 'quick' else 900):
+        s = c07gen.gen_coarse_portfolio(random.Random(rnd.getrandbits(48)), quick=(tier == 'quick'))
+        yield 'coarse%d' % i, s
+
+
+def coarse_intervals(rec, drv, feats):
+    """C07 for the variables of an asset on a coarser frequency: such a variable belongs to ONE coarse step of the asset, and its
+    mapping rows must name exactly the fine steps of that coarse step - the fine steps in [coarse point, next coarse point) -,
+    each once, weighted in proportion to the fine step lengths; two variables of the same kind never serve the same fine step.
+    The coarse steps (fine steps of each, lengths) come from the Lean model of Timegrid's coarse branch (c07gen.coarse_model)."""
+    viol, dis = [], []
+    scn = rec['scn']
+    for name, args, spec in c07gen.coarse_specs(scn):
+        cap = rec['captured'].get(name)
+        if cap is None or len(cap.c) == 0 or cap.mapping is None or not len(cap.mapping):
+            continue
+        cm = c07gen.coarse_model(scn['grid'], args, drv)
+        if cm is None:
+            feats.append('coarse-model-refuses')
+            continue
+        # tie: the model's coarse steps are those of the restricted grid the real code builds for this asset
+        try:
+            rc = c07gen.real_coarse(scn, spec)
+        except Exception as e:
+            rc = {'err': impl.err_class(e)}
+        if rc is None or 'err' in rc or rc['minor'] != cm['minor'] or len(rc['dt']) != len(cm['dt']) or \
+                any(abs(x - float(y)) > 1e-9 * max(1.0, abs(x)) for x, y in zip(rc['dt'], cm['dt'])):
+            dis.append({'component': 'coarsen', 'detail': 'asset %r (freq %s): coarse steps of the model %s vs those of the real restricted grid %s' % (
+                name, args['freq'], [_rng(x) for x in cm['minor']][:6], rc if rc is None or 'err' in rc else [_rng(x) for x in rc['minor']][:6])})
+            continue
+        feats.append('coarse-asset')
+        sizes = sorted(set(len(x) for x in cm['minor']))
+        if len(sizes) > 1:
+            feats.append('coarse-unequal-major-steps')
+        by_first = {x[0]: k for k, x in enumerate(cm['minor'])}
+        m = cap.mapping
+        m = m[m['type'].isin(['d', 'i'])]
+        vn = m['var_name'].astype(str).values if 'var_name' in m.columns else ['nan'] * len(m)
+        fac = m['disp_factor'].fillna(1.).values if 'disp_factor' in m.columns else np.ones(len(m))
+        groups = {}
+        for j, nd, ty, v, t, f in zip(m.index, m['node'].astype(str).values, m['type'].values, vn, m['time_step'].values, fac):
+            groups.setdefault((int(j), nd, str(ty), v), []).append((int(t), float(f)))
+        served = {}
+        atype = type([a for a in rec['portf'].assets if a.name == name][0]).__name__
+
+        def bad(msg, what):
+            viol.append({'oracle': 'mapping_structure', 'detail': 'asset %r (%s, freq %s on a %s grid%s): %s' % (
+                name, atype, args['freq'], scn['grid']['freq'], ', zone %s' % scn['grid']['tz'] if scn['grid'].get('tz') else '', msg),
+                'facts': {'what': what, 'asset_type': atype, 'minor_sizes': sizes}})
+        for (j, nd, ty, v), rows in sorted(groups.items()):
+            steps = sorted(t for t, _ in rows)
+            k = by_first.get(steps[0])
+            if k is None or steps != cm['minor'][k]:
+                kk = k if k is not None else next((i for i, x in enumerate(cm['minor']) if steps[0] in x), None)
+                bad('variable %d (%s, node %s) is mapped to the steps %s; %s' % (
+                    j, v, nd, _rng(steps), 'no coarse step of the asset contains step %d (its coarse steps hold the fine steps %s)' % (
+                        steps[0], [_rng(x) for x in cm['minor']][:6]) if kk is None else
+                    'its coarse step %d = [coarse point %d, next coarse point) holds exactly the fine steps %s (%d of them; the asset\'s coarse steps hold %s fine steps)' % (
+                        kk, kk, _rng(cm['minor'][kk]), len(cm['minor'][kk]), [len(x) for x in cm['minor']][:8])), 'coarse_steps')
+                break
+            # weights in proportion to the fine step lengths: factor_t / (dt_t / dt_coarse) is the same for all t
+            base = [f * float(cm['dt'][k] / cm['dt_fine'][t]) for t, f in rows]
+            if max(base) - min(base) > 1e-9 * max(1.0, max(abs(b) for b in base)):
+                bad('variable %d (%s, node %s): the weights of its rows over the fine steps %s are not in proportion to the step lengths (weight * dt_coarse / dt_fine ranges over %s .. %s)' % (
+                    j, v, nd, _rng(steps), min(base), max(base)), 'coarse_weights')
+                break
+            if (nd, ty, v, k) in served and served[(nd, ty, v, k)] != j:
+                bad('the fine steps %s (coarse step %d) are served by two %r variables at node %s: %d and %d' % (
+                    _rng(steps), k, v, nd, served[(nd, ty, v, k)], j), 'coarse_twice')
+                break
+            served[(nd, ty, v, k)] = j
+    return viol, dis
+
+
+def _rng(steps):
+    steps = list(steps)
+    if len(steps) > 2 and steps == list(range(steps[0], steps[-1] + 1)):
+        return '%d..%d' % (steps[0], steps[-1])
+    return str(steps[:30])
 
 
 def structural(rec):
@@ -124,14 +223,25 @@ def structural(rec):
     rec_pairs = [(int(t), str(nn)) for t, nn in op.map_nodal_restr]
     if len(set(rec_pairs)) != len(rec_pairs):
         bad('duplicate entries in the nodal record', what='nodal_dup')
-    if set(rec_pairs) != pairs:
-        bad('nodal rows for %s but dispatch at %s' % (sorted(set(rec_pairs) - pairs)[:3], sorted(pairs - set(rec_pairs))[:3]), what='nodal_set')
+    if set(rec_pairs) - pairs:
+        # (step, node) pairs of the nodal record at which no variable dispatches: rows that should not exist
+        extra = sorted(set(rec_pairs) - pairs)
+        nds = sorted(set(nn for _, nn in extra))
+        bad('%d nodal rows for (step, node) pairs without any dispatch row in the mapping: %s; node %s has dispatch at the steps %s only' % (
+            len(extra), extra[:4], nds[0], sorted(t for t, nn in pairs if nn == nds[0])[:24]), what='nodal_set', direction='row_without_dispatch')
+    if pairs - set(rec_pairs):
+        bad('no nodal row for the (step, node) pairs %s although the mapping has dispatch rows there' % sorted(pairs - set(rec_pairs))[:4],
+            what='nodal_set', direction='dispatch_without_row')
     nN = op.cType.count('N')
     if nN != len(rec_pairs):
         bad('%d rows of type N but %d entries in the nodal record' % (nN, len(rec_pairs)), what='nodal_count')
     else:
         Nrows = [i for i, k in enumerate(op.cType) if k == 'N']
         fac = d['disp_factor'].fillna(1.).values if 'disp_factor' in d.columns else np.ones(len(d))
+        for k, (t, nn) in enumerate(rec_pairs):
+            if (t, nn) not in pairs and not np.any(A[Nrows[k]].data != 0):
+                bad('row %d of type N (recorded for node %s, step %d) is empty (0 = 0): no variable dispatches there' % (Nrows[k], nn, t), what='nodal_empty')
+                break
         for k, (t, nn) in enumerate(rec_pairs):
             want = {}
             sel = (d['time_step'].values == t) & (d['node'].astype(str).values == nn)
@@ -185,6 +295,9 @@ def run_case(scn, drv):
     feats.append('hypotheses-evaluated')
     r['disagreements'] += pf.corr_assemble(rec, drv)
     r['violations'] += structural(rec)
+    v, d = coarse_intervals(rec, drv, feats)
+    r['violations'] += v
+    r['disagreements'] += d
     op = rec['op']
     mapped = set(int(i) for i in op.mapping.index)
     if len(mapped) < len(op.c):
@@ -193,6 +306,12 @@ def run_case(scn, drv):
         feats.append('several-rows-per-variable')
     if pf.is_mip(op):
         feats.append('booleans')
+    dm = op.mapping[op.mapping['type'] == 'd'] if len(op.mapping) else op.mapping
+    for nd in (set(dm['node'].astype(str)) if len(dm) else ()):
+        ts = sorted(set(int(t) for t in dm['time_step'].values[dm['node'].astype(str).values == nd]))
+        if ts != list(range(ts[0], ts[-1] + 1)):
+            feats.append('node-with-gap-in-time')
+            break
     r['nontrivial'] = len(rec['portf'].assets) >= 2 and op.cType.count('N') >= 1
     if scn.get('split'):
         # every interval problem of a split set-up is itself an assembled problem and must stay faithfully described by its own mapping
@@ -235,9 +354,9 @@ def run_case(scn, drv):
                         r['violations'].append({'oracle': 'mapping_structure', 'detail': 'split: variables %d..%d of the joint problem are those of interval %d, but the joint mapping has %d rows for them where the interval\'s own mapping has %d (or they name other assets/nodes/kinds)' % (
                             off, off + nk - 1, k, len(sub), len(o.mapping)), 'facts': {'what': 'joint_block'}})
                         break
-                    if not (np.array_equal(np.asarray(rs['op'].c[off:off + nk]), np.asarray(o.c)) and np.array_equal(np.asarray(rs['op'].l[off:off + nk]), np.asarray(o.l))
-                            and np.array_equal(np.asarray(rs['op'].u[off:off + nk]), np.asarray(o.u))):
-                        r['violations'].append({'oracle': 'mapping_structure', 'detail': 'split: cost/bounds of variables %d..%d of the joint problem differ from those of interval %d' % (off, off + nk - 1, k), 'facts': {'what': 'joint_block_values'}})
+                    # (the joint problem carries a cost vector only; bounds stay with the interval problems)
+                    if not np.array_equal(np.asarray(rs['op'].c[off:off + nk]), np.asarray(o.c)):
+                        r['violations'].append({'oracle': 'mapping_structure', 'detail': 'split: cost of variables %d..%d of the joint problem differs from that of interval %d' % (off, off + nk - 1, k), 'facts': {'what': 'joint_block_values'}})
                         break
                     off += nk
             if len(jm) and (jm.index.max() >= ntot or len(rs['op'].c) != ntot):
